@@ -76,7 +76,7 @@ impl<P: SingleObjectiveProblem> Component<P> for ExponentialAnnealingAcceptance 
         let t = state.get_value::<Temperature>();
         let p = ((o_current.value() - o_candidate.value()) / t).exp();
 
-        if o_candidate < o_current || state.random_mut().gen::<f64>() < p {
+        if o_candidate <= o_current || state.random_mut().gen::<f64>() < p {
             let candidate = populations.pop();
             populations.pop();
             populations.push(candidate);
